@@ -642,4 +642,6 @@ def xcmp_listings(ck, workdir, limit=None):
             continue
         lines = ['L ' + l for l in o1.decode('latin1').split('\n') if l.strip()]
         out.append({'name': os.path.basename(src), 'lines': lines, 'file': open(binp, 'rb').read()})
+    if srcs and len(out) < max(1, len(srcs) // 2):
+        ck.broken.append('xcmp compiled only %d of %d shipped X programs: the compiler-level listings cannot be judged' % (len(out), len(srcs)))
     return out
